@@ -221,7 +221,12 @@ func genFrame(t *rapid.T, label string, real bool) ([]byte, string) {
 		return []byte{1}, k
 	case "sign":
 		data := rapid.SliceOfN(rapid.Byte(), 0, 64).Draw(t, label+"D")
-		f := append([]byte{13}, sshString(vh.SSHPub(key).Marshal())...)
+		// the key blob names a plain key or (a third) a certificate - valid, expired, not valid yet, ... (genBlob)
+		blob := vh.SSHPub(key).Marshal()
+		if rapid.IntRange(0, 2).Draw(t, label+"SignCert") == 0 {
+			blob = genBlob(t, label+"SB", false)
+		}
+		f := append([]byte{13}, sshString(blob)...)
 		f = append(f, sshString(data)...)
 		var fl [4]byte
 		binary.BigEndian.PutUint32(fl[:], uint32(rapid.SampledFrom([]int{0, 2, 4}).Draw(t, label+"F")))
